@@ -90,6 +90,36 @@ CHECKS["C08"] = dict(
     design_ref="DESIGN.md section 5, C08",
 )
 
+E2_XL = "Trusted: the simulated gtp5g endpoint (harness/internal/verif/simk) and the attribute schema transcribed from the gtp5g UAPI (xlate/canon.go); go-pfcp as the IE encoder of the SMF side."
+CHECKS["C02"] = dict(
+    engine=E2,
+    technique="bounded-exhaustive enumeration of Create/Update PDR and FAR IE shapes (presence subsets x child orders at both nesting levels x boundary values x 64-bit SEIDs) through the real gtp5g driver over a simulated netlink kernel, decoded by an independent attribute walker",
+    text="Every shape of the stated finite space is translated by the real driver and the netlink request the simulated kernel received is decoded by a walker that shares no code with the driver or go-gtp5gnl; each attribute must be present iff its IE was, with the IE's value and width, under the right (SEID, id), independent of child order.",
+    note=E2_XL,
+    design_ref="DESIGN.md section 5, C02",
+)
+CHECKS["C03"] = dict(
+    engine=E2,
+    technique="bounded-exhaustive enumeration of Create/Update QER, URR, BAR IE shapes (presence subsets, orders, all gate values, 40-bit rate pairs, every trigger bit and threshold/quota flag subset, BAR fields 0..255) through the real driver over the simulated kernel, plus a tick-and-read-back probe of the periodic registration on the real perio server",
+    text="As C02 for QER/URR/BAR; the periodic registration is decided by posting ticks to the real periodic server and reading the GET_MULTI_REPORTS requests the simulated kernel receives, for every PERIO x other-trigger x octet-form combination and the four Update URR transitions.",
+    note=E2_XL + " The netlink measurement-period attribute is not compared. Known finding: Update URR does not re-register (recorded in known_findings.json).",
+    design_ref="DESIGN.md section 5, C03",
+)
+CHECKS["C16"] = dict(
+    engine=E2,
+    technique="grammar-bounded exhaustive enumeration of flow-description strings (all protocols, all prefix lengths, port-list shapes, spacing) plus single-token mutations and all short byte strings, against an independent reference parser and decoder of the packed netlink form",
+    text="Each generated rule is parsed by the real ParseFlowDesc and packed by the real newFlowDesc/newSdfFilter with and without the uplink swap; results must equal the reference parser's filter field by field, also after decoding the packed attributes with an independent walker and with go-gtp5gnl's decoder; every other string must be rejected or handled without a fault.",
+    note="Trusted: the reference parser in harness/internal/verif/c16 (what a rule denotes). Strings beyond the grammar that the implementation accepts are listed in evidence, not judged.",
+    design_ref="DESIGN.md section 5, C16",
+)
+CHECKS["C20"] = dict(
+    engine=E2,
+    technique="exhaustive single and pairwise faults (delete / null / empty / wrong YAML type / out-of-range) of a valid configuration document against a reference validity predicate, and a grid of gtp5g version strings through the real checkVersion against the simulated kernel",
+    text="Every single fault at every path and every pair of faults is written to a file and read by the real ReadConfig: an accepted document must satisfy every condition of the property and appear unchanged in the returned struct, a rejected one must yield an error and no configuration, and the valid document and its benign variations must be accepted. Version strings around both bounds are answered by the simulated GET_VERSION.",
+    note="Trusted: the reference predicate in harness/internal/verif/c20; node ids limited to IPv4 literals and localhost (no DNS).",
+    design_ref="DESIGN.md section 5, C20",
+)
+
 NOT_YET = "check not built yet (work in progress in this round; design in DESIGN.md section 5)"
 
 def main():
